@@ -421,7 +421,11 @@ func fragParseBytes(g *Gen, n int, o *Out) {
 func fragBudget(g *Gen, n int, o *Out) {
 	var inputs []string
 	inputs = append(inputs, "a == 1", "foo == 3x", "(foo == 1", "foo[1] == 2", "foo[\"a\" == 2", "1 in 5", "foo == \"abc", "foo[\xff", "", "(", "((((a == 1))))", "a ==", "all a as x { x == 1 }", "\xff", "not not not a == 1",
-		"a == 1 and b == 2 or c == 3", "((a == 1) and (b == 2))", "(((((", "a[\"b\"].c is not empty")
+		"a == 1 and b == 2 or c == 3", "((a == 1) and (b == 2))", "(((((", "a[\"b\"].c is not empty",
+		// a syntax error found early in a LONG input (the step count is smaller than the length in bytes)
+		"foo == 1 "+strings.Repeat("garbage ", 100), "a == 1 )"+strings.Repeat(" x", 400), "foo = 1"+strings.Repeat(" and bar == 2", 60), "x"+strings.Repeat("é", 700),
+		// white space that is not the grammar's, and blanks around an error, at the edges of the text
+		"\u00a0foo == 1", "foo == 1\u2028", "\vfoo == \"a\"\f", "foo is empty\u0085", "  foo = 1", "\n\n foo == 1 and and", " foo == 1 ", "\tfoo == 1\n", "\r\n foo == 1 \r\n", "foo == 1\x00", "\ufefffoo == 1")
 	for len(inputs) < n {
 		if g.r.Intn(4) == 0 {
 			ts := []string{}
